@@ -131,7 +131,8 @@ Definition spec_bad (c : scase) : bool :=
       negb (keys_ok (sc_v c)) ||                                      (* bad keys are refused *)
       negb (sweep_all (fun n code => if N.of_nat (length bs) <=? n then code =? 0 else code =? 1)
                       (sc_sweep c))                                   (* buffer contract *)
-  | None => existsb (fun e => (snd e =? 0) || (snd e =? 3)) (sc_sweep c)
+  | None => existsb (fun e => (snd e =? 0) || (snd e =? 3)) (sc_sweep c) ||
+            keys_ok (sc_v c)            (* acceptable keys are accepted (the sweep includes 64 KiB) *)
   end ||
   (frame_given c &&
    (negb (obytes_eqb (ref_enc (reply_wrap (sc_v c) (sc_cont c))) (Some (frame_bytes c))) ||
